@@ -24,9 +24,12 @@
 (*   Variant = "impl_plain_update" obtain_counts merges with counts.update(result): a bin reported by   *)
 (*                                 several jobs (several BAMs of different cells) keeps only the     *)
 (*                                 cells of the job merged last (seeded change C12-r2m1)             *)
+(*   Variant = "impl_r1only_read2" read1_only rejects only records flagged read 2: unpaired records   *)
+(*                                 (neither mate flag) are counted (seeded change C12-r3m1)          *)
 (*   Variant = "impl_no_precond"   records whose site is farther than mfs from the alignment are    *)
 (*                                 admitted: shows that the precondition is necessary               *)
 (*                                                                                                 *)
+(* (paired = FALSE: single-end record, neither read-1 nor read-2 flag, never a "read-1 record")         *)
 (* record r: file (index of the BAM in the list given to generate_commands), contig, site, rstart, rend (half open alignment), sample, r1, dup, qcfail : BOOLEAN,    *)
 (*           mapq, mp ("" = no mp tag), key (value of the key tag, "" = no key tags in use)          *)
 (* config c: bin, bpj, mfs, minmq, dedup, kwargs \in {"none","empty"}, usekey : BOOLEAN              *)
@@ -81,7 +84,7 @@ Fetched(recs, j, c) == SelectSeq(recs, LAMBDA r : r.file = j.file /\ r.contig = 
 
 (* read_counts(read, min_mq, dedup, read1_only=True, ignore_mp=False) in code order *)
 ReadCounts(r, c) ==
-    IF ~r.r1 THEN FALSE
+    IF (IF Variant = "impl_r1only_read2" THEN r.paired /\ ~r.r1 ELSE ~r.r1) THEN FALSE      \* not read.is_read1
     ELSE IF r.qcfail THEN FALSE
     ELSE IF c.dedup /\ r.dup THEN FALSE
     ELSE IF r.mp # "" /\ r.mp # "unique" THEN FALSE
@@ -129,11 +132,11 @@ SerialResult(recs, c) ==
 
 ---------------------------------------------------------------------------------------------------
 (* record universe of the bounded model: sites everywhere, alignments at the extreme offsets *)
-Kinds == { "good", "dup", "qcfail", "notr1", "lowmq", "mp_multi", "good_s2", "good_k2", "mp_unique" }
+Kinds == { "unpaired", "good", "dup", "qcfail", "notr1", "lowmq", "mp_multi", "good_s2", "good_k2", "mp_unique" }
 SampleOf(kind, f) == (IF kind = "good_s2" THEN "s2" ELSE "s1") \o (IF f = 1 THEN "" ELSE "_lib" \o ToString(f))
 MkRec(cn, site, rstart, kind, f) ==
     [file |-> f, contig |-> cn, site |-> site, rstart |-> rstart, rend |-> rstart + 2,
-     sample |-> SampleOf(kind, f), r1 |-> kind # "notr1", dup |-> kind = "dup",
+     sample |-> SampleOf(kind, f), r1 |-> kind \notin {"notr1", "unpaired"}, paired |-> kind # "unpaired", dup |-> kind = "dup",
      qcfail |-> kind = "qcfail", mapq |-> IF kind = "lowmq" THEN 49 ELSE 50,
      mp |-> IF kind = "mp_multi" THEN "multi" ELSE IF kind = "mp_unique" THEN "unique" ELSE "",
      key |-> IF kind = "good_k2" THEN "k2" ELSE "k1"]
